@@ -81,10 +81,19 @@ learned clause is empty. -/
 theorem trace_valid {fuel : Nat} {cnf : CNF} {o : Oracle} {c' : CNF} {ps : List (Nat × List Nat)}
     (h : solveCnf fuel cnf o = .unsat c' ps) :
     checkTrace c' cnf.length ps = true ∧ c'.take cnf.length = cnf.map dedup :=
-  ((solveCnf_spec fuel cnf o).2 c' ps h).2
+  ⟨((solveCnf_spec fuel cnf o).2 c' ps h).2.1, ((solveCnf_spec fuel cnf o).2 c' ps h).2.2.1⟩
 
 example : checkTrace (exUnsat ++ [[(0, false)], []]) 4 [(4, [3, 1]), (5, [2, 4, 0, 4])] = true :=
   (trace_valid exUnsat_run).1
+
+/-- The same from what `solve_cnf` actually returns (the proofs, not the learned clauses): the
+learned clauses can be recomputed by replaying the proofs in order, whatever order `resolution`'s
+sets had, and the proofs pass the checker against the recomputed list. -/
+theorem proofs_valid {fuel : Nat} {cnf : CNF} {o : Oracle} {c' : CNF} {ps : List (Nat × List Nat)}
+    (h : solveCnf fuel cnf o = .unsat c' ps) : checkProofs cnf ps = true :=
+  ((solveCnf_spec fuel cnf o).2 c' ps h).2.2.2
+
+example : checkProofs exUnsat [(4, [3, 1]), (5, [2, 4, 0, 4])] = true := proofs_valid exUnsat_run
 
 /-- The verdict agrees with exhaustive search, whichever it is. -/
 theorem verdict_correct {fuel : Nat} {cnf : CNF} {o : Oracle} :
